@@ -241,26 +241,11 @@ Proof.
   intros y Hy. apply H. right. exact Hy.
 Qed.
 
-Definition complete_b (T : tinfo) (D : dinfo) (b : block) : bool :=
-  match find (fun p => zlist_eqb (fst p) (b_cat b)) D with
-  | Some p => existsb (fun e => t_ord e =? b_tid b + snd p) T
-  | None => false
-  end.
-
-Lemma lookup2_complete T D b : complete_b T D b = true ->
-  lookup2 T D (b_cat b) (b_tid b) = Some (spec_lookup T D (b_cat b) (b_tid b) (b_unit b)).
-Proof.
-  unfold complete_b, lookup2, spec_lookup, spec_entry, spec_offset.
-  destruct (find (fun p => zlist_eqb (fst p) (b_cat b)) D) as [p|]; [|discriminate]. intros H.
-  destruct (find (fun e => t_ord e =? b_tid b + snd p) T) as [e|] eqn:F; [reflexivity|].
-  exfalso. apply existsb_exists in H as (e & Hin & He). apply (find_none _ _ F) in Hin. congruence.
-Qed.
-
-Lemma var2_group T D b0 rest : wf_block b0 = true -> complete_b T D b0 = true ->
+Lemma var2_group T D b0 rest : wf_block b0 = true ->
   Forall (fun b => meta_eqb b b0 = true /\ wf_block b = true) rest ->
   var2 T D (map blk_of (b0 :: rest)) = Some (no_resv (var_of T D b0), map b_data (b0 :: rest)).
 Proof.
-  intros Hb0 Hc Hrest.
+  intros Hb0 Hrest.
   destruct (wf_block_lens b0 Hb0) as (_ & _ & _ & _ & _ & _ & Px & Py & Pz & Ld0).
   set (N := b_nz b0 * b_ny b0 * b_nx b0) in *.
   assert (Hall : Forall (fun b => wf_block b = true /\ b_nz b * b_ny b * b_nx b = N) (b0 :: rest)).
@@ -274,7 +259,7 @@ Proof.
     apply Forall_forall. intros x Hx. apply in_map_iff in Hx as (b & <- & Hin).
     rewrite Forall_forall in Hall. destruct (Hall b Hin) as [_ H]. exact H. }
   change (hdr_of b0, blockw b0) with (blk_of b0). rewrite Hlast.
-  rewrite (lookup2_complete T D b0 Hc).
+  unfold lookup2.
   apply Z.ltb_lt in Px, Py, Pz. rewrite Px, Py, Pz. apply Z.ltb_lt in HN. rewrite HN. cbn [andb].
   change (blk_of b0 :: map blk_of rest) with (map blk_of (b0 :: rest)).
   destruct consts as (C1 & _). rewrite C1.
@@ -324,20 +309,15 @@ Definition view2_of (T : tinfo) (D : dinfo) (f : bfile) : view2 :=
      s_taus := map tau_tb (f_times f);
      s_data := map (fun b0 => map b_data (concat (map (sel (idb b0)) (f_times f)))) (tb0 f) |}.
 
-Lemma tables_complete_b T D f : tables_complete T D f = true -> forall b, In b (tb0 f) -> complete_b T D b = true.
-Proof. unfold tables_complete. intros H b Hin. rewrite forallb_forall in H. exact (H b Hin). Qed.
-
-Theorem bpch2_enc T D f : wf T D f = true -> tables_complete T D f = true -> taus_distinct f = true ->
+Theorem bpch2_enc T D f : wf T D f = true ->
   impl_bpch2 T D (enc f) (4 * lenZ (enc f)) = Ok (view2_of T D f).
 Proof.
-  intros Hwf Hcomp Htd.
-  destruct (wf_unpack T D f Hwf) as (b0 & rest0 & ts & Et & Hs & Hmeta & Hmodel & Htau & Hid & Hnd).
+  intros Hwf.
+  destruct (wf_unpack T D f Hwf) as (b0 & rest0 & ts & Et & Hs & Hmeta & Hmodel & Htau & Hid & Hnd & Htd).
   destruct (shape_lens f Hs) as (L1 & L2 & Hb).
   assert (HbF : forallb (forallb wf_block) (f_times f) = true) by (rewrite <- forallb_concat; exact Hb).
   pose proof (ids_nodup T D _ Hnd) as Hids.
-  pose proof (tables_complete_b T D f Hcomp) as Hcb.
   assert (Htb0 : tb0 f = b0 :: rest0) by (unfold tb0; rewrite Et; reflexivity).
-  rewrite Htb0 in Hcb.
   rewrite forallb_forall in Hmeta, HbF, Htau.
   assert (Hall : Forall (fun tb => nodupb key2_eqb (map idb tb) = true /\ forall b, In b tb -> b_tau b = tau_tb tb) (f_times f)).
   { apply Forall_forall. intros tb Hin. split.
@@ -370,7 +350,6 @@ Proof.
     apply var2_group.
     - assert (Hw0 : forallb wf_block (b0 :: rest0) = true) by (apply HbF; rewrite Et; left; reflexivity).
       rewrite forallb_forall in Hw0. apply Hw0. exact Hin.
-    - apply Hcb. exact Hin.
     - apply Forall_forall. intros x Hx. apply in_concat in Hx as (l & Hl & Hxl). apply in_map_iff in Hl as (tb & <- & Htb).
       assert (Htb' : In tb (f_times f)) by (rewrite Et; right; exact Htb). split.
       + apply (sel_meta tb (b0 :: rest0) b (Hmeta tb Htb') Hids Hin x Hxl).
@@ -404,12 +383,12 @@ Proof.
 Qed.
 
 Theorem readers_agree_enc T D f :
-  wf T D f = true -> tables_ok T D = true -> tables_complete T D f = true -> taus_distinct f = true ->
+  wf T D f = true -> tables_ok T D = true ->
   exists v1 v2, impl_open T D (enc f) (4 * lenZ (enc f)) = Ok v1
                 /\ impl_bpch2 T D (enc f) (4 * lenZ (enc f)) = Ok v2
                 /\ readers_agree v1 v2.
 Proof.
-  intros Hwf Hok Hcomp Htd. exists (view_of T D f), (view2_of T D f).
+  intros Hwf Hok. exists (view_of T D f), (view2_of T D f).
   split; [apply read_enc; assumption|]. split; [apply bpch2_enc; assumption|].
   destruct (wf_unpack T D f Hwf) as (b0 & rest0 & ts & Et & _ & Hmeta & _).
   rewrite forallb_forall in Hmeta.
